@@ -87,8 +87,10 @@ func (H) Generate(r *simrt.Rand, tier string) any {
 			o.K = "rmf"
 		case x < 85:
 			o.K = "rmr"
-		case x < 91:
+		case x < 90:
 			o.K = "clear"
+		case x < 93:
+			o.K = "rangemut"
 		default:
 			o.K = "clone"
 		}
@@ -229,6 +231,56 @@ func (H) Execute(scAny any, cfg simrt.Config, st *core.Stats) (*simrt.Outcome, *
 					delete(m.fwd, ok2)
 					delete(m.rev, val)
 					changes++
+				}
+			case "rangemut":
+				// Range whose callback removes other pairs. The statement does not say
+				// what Range does with pairs that go away while it runs, so only what
+				// every reasonable Range (live or snapshot) satisfies is checked: a pair
+				// at most once, only pairs the bimap held when the call began, and every
+				// pair that stays for the whole call exactly once.
+				start := map[int]int{}
+				for a, b := range m.fwd {
+					start[a] = b
+				}
+				seen := map[int]bool{}
+				calls := 0
+				bad := ""
+				m.bm.Range(func(rk, rv int) bool {
+					calls++
+					if seen[rk] {
+						bad = fmt.Sprintf("range-mismatch: Range with a removing callback visited key %d twice", rk)
+					}
+					seen[rk] = true
+					if want, ok := start[rk]; !ok || want != rv {
+						bad = fmt.Sprintf("range-mismatch: Range with a removing callback visited (%d,%d), which was not a pair when the call began: %v", rk, rv, start)
+					}
+					if calls == 1+o.A%3 {
+						// remove up to 1+B other pairs, lowest keys first
+						left := 1 + o.B
+						for a := 0; a < sc.UK && left > 0; a++ {
+							if ov, ok := m.fwd[a]; ok && a != rk {
+								if a%2 == 0 {
+									m.bm.RemoveForward(a)
+								} else {
+									m.bm.RemoveReverse(ov)
+								}
+								delete(m.fwd, a)
+								delete(m.rev, ov)
+								left--
+								changes++
+							}
+						}
+					}
+					return true
+				})
+				for a := range m.fwd {
+					if bad == "" && !seen[a] {
+						bad = fmt.Sprintf("range-mismatch: Range with a removing callback never visited key %d, which stayed in the bimap for the whole call", a)
+					}
+				}
+				if bad != "" {
+					v = &core.Violation{Signature: "range-mismatch:rangemut", Detail: fmt.Sprintf("op %d %s: %s", i, o, bad)}
+					return
 				}
 			case "clear":
 				m.bm.Clear()
